@@ -1212,7 +1212,10 @@ class Particle:
         """
         if not self.pdg_valid:
             return np.nan
-        return PDGID(self.pdg).charge
+        charge = PDGID(self.pdg).charge
+        if charge is None:
+            return np.nan
+        return charge
 
     def mT(self) -> float:
         """
